@@ -57,6 +57,16 @@ Definition win_inst_b (sw ow : window_size) (omss : option N) : bool :=
 Definition pclass_inst (sp op : payload_size) : Prop := sp = PAnySize \/ op = sp.
 Definition pclass_inst_b (sp op : payload_size) : bool := payload_size_eqb sp PAnySize || payload_size_eqb op sp.
 
+(* quirks: the field definitions (doc comments of tcp.rs `Quirk`, p0f README / fp_tcp.c) say df, id+, id- and 0+
+   are "ignored for IPv6" and flow is "ignored for IPv4": of a signature's quirk list only the quirks that can
+   apply to the packet's IP version are demanded of it *)
+Definition ipv4_only_quirk (q : quirk) : bool :=
+  match q with QDf | QNonZeroID | QZeroID | QMustBeZero => true | _ => false end.
+Definition ipv6_only_quirk (q : quirk) : bool := match q with QFlowID => true | _ => false end.
+Definition quirk_applies (v : ip_version) (q : quirk) : bool :=
+  match v with IpV6 => negb (ipv4_only_quirk q) | IpV4 => negb (ipv6_only_quirk q) | IpAny => true end.
+Definition sig_quirks_for (v : ip_version) (qs : list quirk) : list quirk := filter (quirk_applies v) qs.
+
 Record tcp_instance (s o : tcp_sig) : Prop := {
   ti_version : version_inst (t_version s) (t_version o);
   ti_ittl : ttl_inst (t_ittl s) (t_ittl o);
@@ -65,24 +75,24 @@ Record tcp_instance (s o : tcp_sig) : Prop := {
   ti_wsize : win_inst (t_wsize s) (t_wsize o) (t_mss o);
   ti_wscale : optfield_inst (t_wscale s) (t_wscale o);
   ti_olayout : t_olayout o = t_olayout s;
-  ti_quirks : t_quirks o = t_quirks s;
+  ti_quirks : t_quirks o = sig_quirks_for (t_version o) (t_quirks s);
   ti_pclass : pclass_inst (t_pclass s) (t_pclass o) }.
 
 Definition tcp_instance_b (s o : tcp_sig) : bool :=
   version_inst_b (t_version s) (t_version o) && ttl_inst_b (t_ittl s) (t_ittl o)
   && (t_olen o =? t_olen s) && optfield_inst_b (t_mss s) (t_mss o)
   && win_inst_b (t_wsize s) (t_wsize o) (t_mss o) && optfield_inst_b (t_wscale s) (t_wscale o)
-  && list_eqb tcp_option_eqb (t_olayout o) (t_olayout s) && list_eqb quirk_eqb (t_quirks o) (t_quirks s)
+  && list_eqb tcp_option_eqb (t_olayout o) (t_olayout s) && list_eqb quirk_eqb (t_quirks o) (sig_quirks_for (t_version o) (t_quirks s))
   && pclass_inst_b (t_pclass s) (t_pclass o).
 
-(* decisive fields: IP version, option layout, quirks, payload class.  An observation that differs from
+(* decisive fields: IP version, option layout, quirks (those that apply to the observed IP version), payload class.  An observation that differs from
    every instance in one of them: that field's value is one the signature does not admit. *)
 Definition tcp_decisive_mismatch (s o : tcp_sig) : Prop :=
   ~ version_inst (t_version s) (t_version o) \/ t_olayout o <> t_olayout s
-  \/ t_quirks o <> t_quirks s \/ ~ pclass_inst (t_pclass s) (t_pclass o).
+  \/ t_quirks o <> sig_quirks_for (t_version o) (t_quirks s) \/ ~ pclass_inst (t_pclass s) (t_pclass o).
 Definition tcp_decisive_mismatch_b (s o : tcp_sig) : bool :=
   negb (version_inst_b (t_version s) (t_version o)) || negb (list_eqb tcp_option_eqb (t_olayout o) (t_olayout s))
-  || negb (list_eqb quirk_eqb (t_quirks o) (t_quirks s)) || negb (pclass_inst_b (t_pclass s) (t_pclass o)).
+  || negb (list_eqb quirk_eqb (t_quirks o) (sig_quirks_for (t_version o) (t_quirks s))) || negb (pclass_inst_b (t_pclass s) (t_pclass o)).
 
 (* field ranges of the Rust types (u8 / u16) *)
 Definition ttl_u8 (t : ttl) : Prop :=
